@@ -13,7 +13,7 @@ import sqlite3
 import subprocess
 import tempfile
 
-from .. import core, tlcrun, par, impl, engine, frontends
+from .. import core, tlcrun, par, impl, engine, frontends, messages
 from .. import enginecheck as ec
 from ..text import s
 
@@ -146,7 +146,7 @@ def _run_frontends(items):
                 got = parse_text(open(outp).read())
                 if got != want_rows:
                     sigs.append(dict(base, frontend='query_csv', what='result rows', got=got, want=want_rows))
-                if any('None' in w for w in warnings) != bool(exp['nonewarn']):
+                if messages.has_kind(warnings, 'none') != bool(exp['nonewarn']):
                     sigs.append(dict(base, frontend='query_csv', what='None warning', got=warnings, want=exp['nonewarn']))
             # 4. command line
             if do_cli:
